@@ -143,7 +143,13 @@ def gen_files(rng, n, S=100, SD=16):
                 if ndim == 3:
                     xz = rng.randint(-L[0] // 2, L[0] // 2)
                     yz = rng.randint(-L[1] // 2, L[1] // 2)
-            lines += [["ITEM:", "TIMESTEP"], [[rng.randint(0, 10 ** 7), 1]], ["ITEM:", "NUMBER", "OF", "ATOMS"], [[N, 1]]]
+            # timesteps: arbitrary, but every third file repeats the previous frame's value now and then (restart / minimise files)
+            if f > 0 and k % 3 == 0 and rng.random() < 0.6:
+                ts = prev_ts
+            else:
+                ts = rng.randint(0, 10 ** 7)
+            prev_ts = ts
+            lines += [["ITEM:", "TIMESTEP"], [[ts, 1]], ["ITEM:", "NUMBER", "OF", "ATOMS"], [[N, 1]]]
             if tri:
                 lob = [lo[0] + min(0, xy, xz, xy + xz), lo[1] + min(0, yz), lo[2]]
                 hib = [lo[0] + L[0] + max(0, xy, xz, xy + xz), lo[1] + L[1] + max(0, yz), lo[2] + L[2]]
@@ -157,7 +163,17 @@ def gen_files(rng, n, S=100, SD=16):
             names = {"x": ["x", "y", "z"], "xs": ["xs", "ys", "zs"], "xu": ["xu", "yu", "zu"]}[style][:ndim]
             lines.append(["ITEM:", "ATOMS", "id", "type"] + names + ["vx", "vy"][:extra])
             ids = list(range(1, N + 1))
-            rng.shuffle(ids)
+            kind = rng.randint(0, 5)
+            if kind <= 2:
+                rng.shuffle(ids)
+            elif kind == 3 and N > 3:          # first and last line in place, interior shuffled
+                mid = ids[1:-1]
+                rng.shuffle(mid)
+                ids = [ids[0]] + mid + [ids[-1]]
+            elif kind == 4:                    # rotated
+                r = rng.randint(0, N - 1)
+                ids = ids[r:] + ids[:r]
+            # kind 5: sorted
             for i in ids:
                 row = [[i, 1], [rng.randint(1, 4), 1]]
                 for a in range(ndim):
@@ -215,8 +231,8 @@ def validate(chk, sessions, S, SD, label):
 def run(tier, replay=None):
     common.import_lib()
     chk = Check("C01", tier)
-    chk.rule = ("TLC explores MC_LammpsDump: 8 748 files = ndim {2,3} x style {x,xs,xu} x {orthogonal, every tilt-sign pattern} x "
-                "3 origins x N in 1..3 with all line orders x 0..2 trailing columns x 1..3 frames, one ReadFrame action per frame; "
+    chk.rule = ("TLC explores MC_LammpsDump: 10 692 files = ndim {2,3} x style {x,xs,xu} x {orthogonal, every tilt-sign pattern} x "
+                "3 origins x N in 1..3 with all line orders (+ 2 ends-fixed orders for N = 4) x timesteps increasing/repeated/decreasing x 0..2 trailing columns x 1..3 frames, one ReadFrame action per frame; "
                 "invariants RoundTrip, FramesInOrder, Cursor, AllFrames, Wrapped, Cell. Emitted files (quick: a seeded ninth; thorough: "
                 "all) are rendered in three number formats, read with DumpReader and read_lammps_wrapper, and every delivered "
                 "snapshot is validated field by field by TraceLammpsDump.tla, which carries the cursor. B: seeded random files "
